@@ -129,7 +129,7 @@ func genInject(t *kit.Tape, fatalAllowed bool, nops int) *inject {
 	return j
 }
 
-func genBlock(t *kit.Tape, w *world, prop string) []*txSpec {
+func genBlock(t *kit.Tape, w *world, prop, profile string) []*txSpec {
 	ntx := t.Range("ntx", 1, maxTx)
 	mx := kindMix(prop)
 	injPermille := 120
@@ -159,7 +159,9 @@ func genBlock(t *kit.Tape, w *world, prop string) []*txSpec {
 		}
 		hasInj := t.Permille("inj", injPermille)
 		inj := genInject(t, prop == "C10", nops)
-		if hasInj {
+		if hasInj && profile != "plain" {
+			// profile "plain": no injected handler errors at all (the draws are still made, so that
+			// the tape has the same shape in both profiles)
 			s.inj = inj
 		}
 		if i < ntx {
